@@ -127,7 +127,10 @@ def ip_field(I, obj, name, ty):
 
 
 def ip_ptr(I):
-    return PV(I.var("buf").get(I), 3 * I.var("n").get(I).t)
+    b = I.var("buf").get(I)
+    if isinstance(b, PV):        # buf reached through a pointer parameter of a helper
+        return PV(b.obj, cvc.bv64(b.off) + 3 * I.var("n").get(I).t)
+    return PV(b, 3 * I.var("n").get(I).t)
 
 
 def ip_inv(I):
